@@ -732,11 +732,19 @@ func (rt *runtime) toValue(value interface{}) Value {
 
 		switch val.Kind() {
 		case reflect.Ptr:
-			switch reflect.Indirect(val).Kind() {
+			switch elem := reflect.Indirect(val); elem.Kind() {
 			case reflect.Struct:
 				return objectValue(rt.newGoStructObject(val))
 			case reflect.Array:
 				return objectValue(rt.newGoArray(val))
+			case reflect.Slice:
+				return objectValue(rt.newGoSlice(elem))
+			case reflect.Map:
+				return objectValue(rt.newGoMapObject(elem))
+			case reflect.Ptr:
+				if !elem.IsNil() && elem.CanInterface() {
+					return rt.toValue(elem.Interface())
+				}
 			}
 		case reflect.Struct:
 			return objectValue(rt.newGoStructObject(val))
